@@ -37,8 +37,10 @@ The code is modelled **as it is** (default features: one process-wide arena, no 
                    that itself calls `on_cleanup` and `StoredValue::new` (work registered *during*
                    a cleanup lands on whatever owner is current at that moment).
     - `remove k` = `arena.remove(node)` + the destructor of the removed value: an `ArcMemo` owns
-                   its `Owner` (`MemoInner.owner`) ⇒ `drop`; an effect's `Arc<RwLock<EffectInner>>`
-                   owns the channel `Sender` ⇒ the task is woken and will end (channel.rs).
+                   its `Owner` (`MemoInner.owner`; the arena value `Val.memo m ow` records it) ⇒
+                   `drop ow`; an effect's `Arc<RwLock<EffectInner>>` owns the channel `Sender` ⇒
+                   `Inner::drop` wakes the task, which will end (channel.rs) — `ready` derives
+                   this from the entry being gone.
 * `cleanupOwner`  — `Owner::cleanup`;  `dropOwner` — last `Owner` handle dropped;
   `disposeKey`    — `ArenaItem::dispose` (`arena.remove`, value dropped).
 * `potential`     — fuel for `runFrames` (structural recursion); `Theorems/C08` proves it suffices.
@@ -55,6 +57,8 @@ The code is modelled **as it is** (default features: one process-wide arena, no 
       the propagation protocol itself is C01/C02/C09's subject).
     - `RwSignal::new`/`set`: arena item holding the value; `set` marks every subscriber dirty
       (`mark_dirty` on an effect = `dirty := true; notify`), subscribers are weak.
+* `Core` is the part of the state the property talks about (owners, arena, ambient owner stack,
+  log, ghost counters); `St extends Core` adds the reactive tables and the harness's handle tables.
 * `Op`, `stepOp` — the harness's op lines (see harness/hx-c08/src/bin/c08.rs for the grammar).
 -/
 namespace Leptos.Owner
@@ -69,7 +73,8 @@ structure Key where
 inductive Val where
   | num (n : Int)
   | sig (s : Nat)
-  | memo (m : Nat)
+  /-- memo `m`; `ow` = the `Owner` held by its `MemoInner` -/
+  | memo (m : Nat) (ow : Nat)
   | eff (e : Nat)
   deriving DecidableEq, Repr, Inhabited
 
@@ -136,6 +141,235 @@ structure OwnerRec where
   alive : Bool
   deriving DecidableEq, Repr, Inhabited
 
+/-- what ran (the per-op suffix of this log is the observable) -/
+inductive Ev where
+  | c (tag : Nat) (cid : Nat) (ow : Nat) (late : Bool)
+  | r (e : Nat)
+  | s (e : Nat) (sum : Int)
+  | m (m : Nat)
+  | g (m : Nat) (v : Option Int)
+  | u (ty : Nat) (v : Option Int)
+  | t (ty : Nat) (v : Option Int)
+  deriving DecidableEq, Repr, Inhabited
+
+/-- the part of the state the property is about -/
+structure Core where
+  owners : List OwnerRec := []
+  arena : Arena := Arena.empty
+  /-- stack of `Owner::with` frames, innermost first -/
+  cur : List Nat := []
+  log : List Ev := []
+  nextCid : Nat := 0
+  /-- ghost: arena entries created while no owner was current -/
+  unowned : Nat := 0
+  /-- ghost: a context lookup resolved to an entry provided before its owner's last cleanup -/
+  staleHit : Bool := false
+  /-- the harness's table of stored-value handles (keys are retained forever) -/
+  items : List Key := []
+  deriving Repr, Inhabited
+
+def Core.setOwner (st : Core) (o : Nat) (r : OwnerRec) : Core :=
+  { st with owners := st.owners.set o r }
+
+def Core.modOwner (st : Core) (o : Nat) (f : OwnerRec → OwnerRec) : Core :=
+  match st.owners[o]? with
+  | some r => st.setOwner o (f r)
+  | none => st
+
+def Core.aliveB (st : Core) (o : Nat) : Bool :=
+  match st.owners[o]? with
+  | some r => r.alive
+  | none => false
+
+/-- `Owner::current()` -/
+def currentOwner (st : Core) : Option Nat :=
+  match st.cur with
+  | o :: _ => if st.aliveB o then some o else none
+  | [] => none
+
+def freshOwner (parent : Option Nat) (paused : Bool) : OwnerRec :=
+  { parent, children := [], nodes := [], cleanups := [], contexts := [], paused, alive := true }
+
+/-- create an owner whose parent is `parent` (`Owner::new` / `Owner::child`); returns its id -/
+def newOwnerUnder (st : Core) (parent : Option Nat) (paused : Bool) : Core × Nat :=
+  let id := st.owners.length
+  let st := { st with owners := st.owners ++ [freshOwner parent paused] }
+  match parent with
+  | some p => (st.modOwner p fun r => { r with children := r.children ++ [id] }, id)
+  | none => (st, id)
+
+/-- `Owner::new()` -/
+def newOwner (st : Core) : Core × Nat := newOwnerUnder st (currentOwner st) false
+
+/-- `Owner::child(&self)` -/
+def childOwner (st : Core) (o : Nat) : Core × Nat :=
+  match st.owners[o]? with
+  | some r => newOwnerUnder st (some o) r.paused
+  | none => newOwnerUnder st none false
+
+/-- `Owner::on_cleanup` -/
+def regCleanup (st : Core) (tag : Nat) (nested : Bool) : Core :=
+  let c : Cleanup := ⟨st.nextCid, tag, nested⟩
+  let st := { st with nextCid := st.nextCid + 1 }
+  match currentOwner st with
+  | some o => st.modOwner o fun r => { r with cleanups := r.cleanups ++ [c] }
+  | none => st
+
+/-- `ArenaItem::new_with_storage` -/
+def newItem (st : Core) (v : Val) : Core × Key :=
+  let (a, k) := st.arena.insert v
+  let st := { st with arena := a }
+  match currentOwner st with
+  | some o => (st.modOwner o fun r => { r with nodes := r.nodes ++ [k] }, k)
+  | none => ({ st with unowned := st.unowned + 1 }, k)
+
+/-- `StoredValue::new(v)`, handle retained in the harness's item table -/
+def newStored (st : Core) (v : Int) : Core :=
+  let (st, k) := newItem st (Val.num v)
+  { st with items := st.items ++ [k] }
+
+def logEv (st : Core) (e : Ev) : Core := { st with log := st.log ++ [e] }
+
+/-! ## contexts -/
+
+def ctxFind (cs : List CtxEntry) (ty : Nat) : Option CtxEntry := cs.find? fun e => e.ty == ty
+
+def ctxInsert (cs : List CtxEntry) (e : CtxEntry) : List CtxEntry :=
+  if cs.any (fun x => x.ty == e.ty) then cs.map fun x => if x.ty == e.ty then e else x
+  else cs ++ [e]
+
+/-- `provide_context` -/
+def provide (st : Core) (ty : Nat) (v : Int) : Core :=
+  match currentOwner st with
+  | some o => st.modOwner o fun r => { r with contexts := ctxInsert r.contexts ⟨ty, v, false⟩ }
+  | none => st
+
+/-- `Owner::with_context`: own map first, then `parent.upgrade()` repeatedly -/
+def lookup : Nat → Core → Nat → Nat → Option (Nat × CtxEntry)
+  | 0, _, _, _ => none
+  | fuel + 1, st, o, ty =>
+    match st.owners[o]? with
+    | none => none
+    | some r =>
+      if !r.alive then none else
+      match ctxFind r.contexts ty with
+      | some e => some (o, e)
+      | none =>
+        match r.parent with
+        | some p => lookup fuel st p ty
+        | none => none
+
+def lookupCur (st : Core) (ty : Nat) : Option (Nat × CtxEntry) :=
+  match currentOwner st with
+  | some o => lookup (st.owners.length + 1) st o ty
+  | none => none
+
+/-- `use_context` (result is appended to the log) -/
+def useCtx (st : Core) (ty : Nat) : Core :=
+  match lookupCur st ty with
+  | some (_, e) => { st with log := st.log ++ [Ev.u ty (some e.val)], staleHit := st.staleHit || e.stale }
+  | none => { st with log := st.log ++ [Ev.u ty none] }
+
+/-- `take_context` -/
+def takeCtx (st : Core) (ty : Nat) : Core :=
+  match lookupCur st ty with
+  | some (o, e) =>
+    let st := st.modOwner o fun r => { r with contexts := r.contexts.filter fun x => x.ty != ty }
+    { st with log := st.log ++ [Ev.t ty (some e.val)], staleHit := st.staleHit || e.stale }
+  | none => { st with log := st.log ++ [Ev.t ty none] }
+
+/-! ## cleanup / drop as a small-step machine -/
+
+inductive Frame where
+  | visit (o : Nat) (late : Bool)
+  | drop (o : Nat) (late : Bool)
+  | run (c : Cleanup) (ow : Nat) (late : Bool)
+  | remove (k : Key) (late : Bool)
+  deriving DecidableEq, Repr, Inhabited
+
+def expand (r : OwnerRec) (o : Nat) (late : Bool) : List Frame :=
+  r.children.map (Frame.visit · late) ++ (r.cleanups.map (Frame.run · o late)
+    ++ r.nodes.map (Frame.remove · late))
+
+def staleAll (cs : List CtxEntry) : List CtxEntry := cs.map fun e => { e with stale := true }
+
+/-- destructor of a value removed from the arena: an `ArcMemo` drops the `Owner` it holds -/
+def dropFrames : Option Val → List Frame
+  | some (Val.memo _ ow) => [Frame.drop ow true]
+  | _ => []
+
+/-- the record after `mem::take` of the three lists in `cleanup` (contexts: ghost flag only) -/
+def clearedRec (r : OwnerRec) : OwnerRec :=
+  { r with children := [], cleanups := [], nodes := [], contexts := staleAll r.contexts }
+
+/-- the record of an owner whose `Drop` has started -/
+def deadRec (r : OwnerRec) : OwnerRec :=
+  { r with children := [], cleanups := [], nodes := [], alive := false }
+
+def stepFrame (st : Core) : Frame → Core × List Frame
+  | .visit o late =>
+    match st.owners[o]? with
+    | some r => if r.alive then (st.setOwner o (clearedRec r), expand r o late) else (st, [])
+    | none => (st, [])
+  | .drop o late =>
+    match st.owners[o]? with
+    | some r => (st.setOwner o (deadRec r), expand r o late)
+    | none => (st, [])
+  | .run c ow late =>
+    let st := logEv st (Ev.c c.tag c.cid ow late)
+    if c.nested then (newStored (regCleanup st (c.tag + 100) false) c.tag, [])
+    else (st, [])
+  | .remove k _ => ({ st with arena := (st.arena.remove k).1 }, dropFrames (st.arena.remove k).2)
+
+def runFrames : Nat → Core → List Frame → Core × List Frame
+  | 0, st, fs => (st, fs)
+  | _ + 1, st, [] => (st, [])
+  | n + 1, st, f :: fs => runFrames n (stepFrame st f).1 ((stepFrame st f).2 ++ fs)
+
+def cleanupW (c : Cleanup) : Nat := if c.nested then 4 else 1
+
+def frameW : Frame → Nat
+  | .visit _ _ => 1
+  | .drop _ _ => 1
+  | .run c _ _ => cleanupW c
+  | .remove _ _ => 2
+
+def ownerW (r : OwnerRec) : Nat :=
+  r.children.length + ((r.cleanups.map cleanupW).sum + 2 * r.nodes.length)
+
+def framesW (fs : List Frame) : Nat := (fs.map frameW).sum
+
+def ownersW (os : List OwnerRec) : Nat := (os.map ownerW).sum
+
+def potential (st : Core) (fs : List Frame) : Nat := framesW fs + ownersW st.owners
+
+/-- run a pass to completion -/
+def runPass (st : Core) (fs : List Frame) : Core := (runFrames (potential st fs) st fs).1
+
+/-- `Owner::cleanup` -/
+def cleanupOwner (st : Core) (o : Nat) : Core := runPass st [Frame.visit o false]
+
+/-- the last strong reference to owner `o` goes away -/
+def dropOwner (st : Core) (o : Nat) : Core := runPass st [Frame.drop o false]
+
+/-- `ArenaItem::dispose` -/
+def disposeKey (st : Core) (k : Key) : Core := runPass st [Frame.remove k false]
+
+/-- `Owner::pause` / `Owner::resume` -/
+def pauseWalk : Nat → Core → List Nat → Bool → Core
+  | 0, st, _, _ => st
+  | _ + 1, st, [], _ => st
+  | n + 1, st, o :: rest, p =>
+    match st.owners[o]? with
+    | some r =>
+      if r.alive then pauseWalk n (st.setOwner o { r with paused := p }) (r.children ++ rest) p
+      else pauseWalk n st rest p
+    | none => pauseWalk n st rest p
+
+def setPaused (st : Core) (o : Nat) (p : Bool) : Core := pauseWalk (2 * st.owners.length + 2) st [o] p
+
+/-! ## reactive layer -/
+
 inductive Sub where
   | eff (e : Nat)
   | memo (m : Nat)
@@ -184,245 +418,20 @@ inductive BOp where
   | newOwner
   deriving DecidableEq, Repr, Inhabited
 
-/-- what ran (the per-op suffix of this log is the observable) -/
-inductive Ev where
-  | c (tag : Nat) (cid : Nat) (ow : Nat) (late : Bool)
-  | r (e : Nat)
-  | s (e : Nat) (sum : Int)
-  | m (m : Nat)
-  | g (m : Nat) (v : Option Int)
-  | u (ty : Nat) (v : Option Int)
-  | t (ty : Nat) (v : Option Int)
-  deriving DecidableEq, Repr, Inhabited
-
-structure St where
-  owners : List OwnerRec := []
-  arena : Arena := Arena.empty
-  /-- stack of `Owner::with` frames, innermost first -/
-  cur : List Nat := []
-  log : List Ev := []
-  nextCid : Nat := 0
-  /-- ghost: arena entries created while no owner was current -/
-  unowned : Nat := 0
-  /-- ghost: a context lookup resolved to an entry provided before its owner's last cleanup -/
-  staleHit : Bool := false
-  -- reactive layer
+structure St extends Core where
   sigs : List SigRec := []
   memos : List MemoRec := []
   effs : List EffRec := []
   obs : Option Sub := none
   acc : Int := 0
   memoDepth : Nat := 0
-  -- the harness's handle tables
-  items : List Key := []
+  /-- the harness's owner handles (`none` = dropped) -/
   hOwners : List (Option Nat) := []
   bodies : List (List BOp) := []
   deriving Repr, Inhabited
 
-def St.owner? (st : St) (o : Nat) : Option OwnerRec := st.owners[o]?
-
-def St.setOwner (st : St) (o : Nat) (r : OwnerRec) : St :=
-  { st with owners := st.owners.set o r }
-
-def St.modOwner (st : St) (o : Nat) (f : OwnerRec → OwnerRec) : St :=
-  match st.owners[o]? with
-  | some r => st.setOwner o (f r)
-  | none => st
-
-def St.aliveB (st : St) (o : Nat) : Bool :=
-  match st.owners[o]? with
-  | some r => r.alive
-  | none => false
-
-/-- `Owner::current()` -/
-def currentOwner (st : St) : Option Nat :=
-  match st.cur with
-  | o :: _ => if st.aliveB o then some o else none
-  | [] => none
-
-def freshOwner (parent : Option Nat) (paused : Bool) : OwnerRec :=
-  { parent, children := [], nodes := [], cleanups := [], contexts := [], paused, alive := true }
-
-/-- create an owner whose parent is `parent` (`Owner::new` / `Owner::child`); returns its id -/
-def newOwnerUnder (st : St) (parent : Option Nat) (paused : Bool) : St × Nat :=
-  let id := st.owners.length
-  let st := { st with owners := st.owners ++ [freshOwner parent paused] }
-  match parent with
-  | some p => (st.modOwner p fun r => { r with children := r.children ++ [id] }, id)
-  | none => (st, id)
-
-/-- `Owner::new()` -/
-def newOwner (st : St) : St × Nat := newOwnerUnder st (currentOwner st) false
-
-/-- `Owner::child(&self)` -/
-def childOwner (st : St) (o : Nat) : St × Nat :=
-  match st.owners[o]? with
-  | some r => newOwnerUnder st (some o) r.paused
-  | none => newOwnerUnder st none false
-
-/-- `Owner::on_cleanup` -/
-def regCleanup (st : St) (tag : Nat) (nested : Bool) : St :=
-  let c : Cleanup := ⟨st.nextCid, tag, nested⟩
-  let st := { st with nextCid := st.nextCid + 1 }
-  match currentOwner st with
-  | some o => st.modOwner o fun r => { r with cleanups := r.cleanups ++ [c] }
-  | none => st
-
-/-- `ArenaItem::new_with_storage` -/
-def newItem (st : St) (v : Val) : St × Key :=
-  let (a, k) := st.arena.insert v
-  let st := { st with arena := a }
-  match currentOwner st with
-  | some o => (st.modOwner o fun r => { r with nodes := r.nodes ++ [k] }, k)
-  | none => ({ st with unowned := st.unowned + 1 }, k)
-
-/-! ## contexts -/
-
-def ctxFind (cs : List CtxEntry) (ty : Nat) : Option CtxEntry := cs.find? fun e => e.ty == ty
-
-def ctxInsert (cs : List CtxEntry) (e : CtxEntry) : List CtxEntry :=
-  if cs.any (fun x => x.ty == e.ty) then cs.map fun x => if x.ty == e.ty then e else x
-  else cs ++ [e]
-
-/-- `provide_context` -/
-def provide (st : St) (ty : Nat) (v : Int) : St :=
-  match currentOwner st with
-  | some o => st.modOwner o fun r => { r with contexts := ctxInsert r.contexts ⟨ty, v, false⟩ }
-  | none => st
-
-/-- `Owner::with_context`: own map first, then `parent.upgrade()` repeatedly -/
-def lookup : Nat → St → Nat → Nat → Option (Nat × CtxEntry)
-  | 0, _, _, _ => none
-  | fuel + 1, st, o, ty =>
-    match st.owners[o]? with
-    | none => none
-    | some r =>
-      if !r.alive then none else
-      match ctxFind r.contexts ty with
-      | some e => some (o, e)
-      | none =>
-        match r.parent with
-        | some p => lookup fuel st p ty
-        | none => none
-
-def lookupCur (st : St) (ty : Nat) : Option (Nat × CtxEntry) :=
-  match currentOwner st with
-  | some o => lookup (st.owners.length + 1) st o ty
-  | none => none
-
-/-- `use_context` (result is appended to the log) -/
-def useCtx (st : St) (ty : Nat) : St :=
-  match lookupCur st ty with
-  | some (_, e) => { st with log := st.log ++ [Ev.u ty (some e.val)], staleHit := st.staleHit || e.stale }
-  | none => { st with log := st.log ++ [Ev.u ty none] }
-
-/-- `take_context` -/
-def takeCtx (st : St) (ty : Nat) : St :=
-  match lookupCur st ty with
-  | some (o, e) =>
-    let st := st.modOwner o fun r => { r with contexts := r.contexts.filter fun x => x.ty != ty }
-    { st with log := st.log ++ [Ev.t ty (some e.val)], staleHit := st.staleHit || e.stale }
-  | none => { st with log := st.log ++ [Ev.t ty none] }
-
-/-! ## cleanup / drop as a small-step machine -/
-
-inductive Frame where
-  | visit (o : Nat) (late : Bool)
-  | drop (o : Nat) (late : Bool)
-  | run (c : Cleanup) (ow : Nat) (late : Bool)
-  | remove (k : Key) (late : Bool)
-  deriving DecidableEq, Repr, Inhabited
-
-def expand (r : OwnerRec) (o : Nat) (late : Bool) : List Frame :=
-  r.children.map (Frame.visit · late) ++ r.cleanups.map (Frame.run · o late)
-    ++ r.nodes.map (Frame.remove · late)
-
-def staleAll (cs : List CtxEntry) : List CtxEntry := cs.map fun e => { e with stale := true }
-
-def stepFrame (st : St) : Frame → St × List Frame
-  | .visit o late =>
-    match st.owners[o]? with
-    | some r =>
-      if r.alive then
-        (st.setOwner o { r with children := [], cleanups := [], nodes := [],
-                                 contexts := staleAll r.contexts },
-         expand r o late)
-      else (st, [])
-    | none => (st, [])
-  | .drop o late =>
-    match st.owners[o]? with
-    | some r =>
-      (st.setOwner o { r with children := [], cleanups := [], nodes := [], alive := false },
-       expand r o late)
-    | none => (st, [])
-  | .run c ow late =>
-    let st := { st with log := st.log ++ [Ev.c c.tag c.cid ow late] }
-    if c.nested then
-      let st := regCleanup st (c.tag + 100) false
-      let (st, k) := newItem st (Val.num c.tag)
-      ({ st with items := st.items ++ [k] }, [])
-    else (st, [])
-  | .remove k _ =>
-    let (a, v) := st.arena.remove k
-    let st := { st with arena := a }
-    match v with
-    | some (Val.memo m) =>
-      match st.memos[m]? with
-      | some mr => (st, [Frame.drop mr.owner true])
-      | none => (st, [])
-    | some (Val.eff e) =>
-      match st.effs[e]? with
-      | some er => ({ st with effs := st.effs.set e { er with woken := true } }, [])
-      | none => (st, [])
-    | _ => (st, [])
-
-def runFrames : Nat → St → List Frame → St × List Frame
-  | 0, st, fs => (st, fs)
-  | _ + 1, st, [] => (st, [])
-  | n + 1, st, f :: fs =>
-    let (st', new) := stepFrame st f
-    runFrames n st' (new ++ fs)
-
-def cleanupW (c : Cleanup) : Nat := if c.nested then 4 else 1
-
-def frameW : Frame → Nat
-  | .visit _ _ => 1
-  | .drop _ _ => 1
-  | .run c _ _ => cleanupW c
-  | .remove _ _ => 2
-
-def ownerW (r : OwnerRec) : Nat :=
-  r.children.length + (r.cleanups.map cleanupW).sum + 2 * r.nodes.length
-
-def potential (st : St) (fs : List Frame) : Nat :=
-  (fs.map frameW).sum + (st.owners.map ownerW).sum
-
-/-- run a pass to completion -/
-def runPass (st : St) (fs : List Frame) : St := (runFrames (potential st fs + 1) st fs).1
-
-/-- `Owner::cleanup` -/
-def cleanupOwner (st : St) (o : Nat) : St := runPass st [Frame.visit o false]
-
-/-- the last strong reference to owner `o` goes away -/
-def dropOwner (st : St) (o : Nat) : St := runPass st [Frame.drop o false]
-
-/-- `ArenaItem::dispose` -/
-def disposeKey (st : St) (k : Key) : St := runPass st [Frame.remove k false]
-
-/-- `Owner::pause` / `Owner::resume` -/
-def pauseWalk : Nat → St → List Nat → Bool → St
-  | 0, st, _, _ => st
-  | _ + 1, st, [], _ => st
-  | n + 1, st, o :: rest, p =>
-    match st.owners[o]? with
-    | some r =>
-      if r.alive then pauseWalk n (st.setOwner o { r with paused := p }) (r.children ++ rest) p
-      else pauseWalk n st rest p
-    | none => pauseWalk n st rest p
-
-def setPaused (st : St) (o : Nat) (p : Bool) : St := pauseWalk (2 * st.owners.length + 2) st [o] p
-
-/-! ## reactive layer -/
+/-- apply a core transformer -/
+def St.lift (st : St) (f : Core → Core) : St := { st with toCore := f st.toCore }
 
 def sigLive (st : St) (s : Nat) : Bool :=
   match st.sigs[s]? with
@@ -431,7 +440,7 @@ def sigLive (st : St) (s : Nat) : Bool :=
 
 def memoLive (st : St) (m : Nat) : Bool :=
   match st.memos[m]? with
-  | some r => st.arena.get r.key == some (Val.memo m)
+  | some r => st.arena.get r.key == some (Val.memo m r.owner)
   | none => false
 
 def effLive (st : St) (e : Nat) : Bool :=
@@ -448,6 +457,23 @@ def clearSources (st : St) (me : Sub) (sources : List Nat) : St :=
   { st with sigs := st.sigs.mapIdx fun i r =>
       if sources.contains i then { r with subs := r.subs.filter (· != me) } else r }
 
+def addSource (st : St) (me : Sub) (s : Nat) : St :=
+  match me with
+  | .eff e =>
+    match st.effs[e]? with
+    | some er =>
+      let er' : EffRec :=
+        { er with sources := if er.sources.contains s then er.sources else er.sources ++ [s] }
+      { st with effs := st.effs.set e er' }
+    | none => st
+  | .memo m =>
+    match st.memos[m]? with
+    | some mr =>
+      let mr' : MemoRec :=
+        { mr with sources := if mr.sources.contains s then mr.sources else mr.sources ++ [s] }
+      { st with memos := st.memos.set m mr' }
+    | none => st
+
 /-- tracked read (`try_get`) of signal `s` by the current observer -/
 def readSig (st : St) (s : Nat) : St :=
   match st.sigs[s]? with
@@ -458,22 +484,7 @@ def readSig (st : St) (s : Nat) : St :=
       | some me =>
         if subLive st me then
           let r' : SigRec := { r with subs := if r.subs.contains me then r.subs else r.subs ++ [me] }
-          let st := { st with sigs := st.sigs.set s r' }
-          match me with
-          | .eff e =>
-            match st.effs[e]? with
-            | some er =>
-              let er' : EffRec :=
-                { er with sources := if er.sources.contains s then er.sources else er.sources ++ [s] }
-              { st with effs := st.effs.set e er' }
-            | none => st
-          | .memo m =>
-            match st.memos[m]? with
-            | some mr =>
-              let mr' : MemoRec :=
-                { mr with sources := if mr.sources.contains s then mr.sources else mr.sources ++ [s] }
-              { st with memos := st.memos.set m mr' }
-            | none => st
+          addSource { st with sigs := st.sigs.set s r' } me s
         else st
       | none => st
     else st
@@ -482,42 +493,49 @@ def readSig (st : St) (s : Nat) : St :=
 /-- `Effect::new(body b)` under the current owner -/
 def newEffect (st : St) (b : Nat) : St :=
   let e := st.effs.length
-  let (st, o) := newOwner st
-  let (st, k) := newItem st (Val.eff e)
-  { st with effs := st.effs ++ [{ key := k, owner := o, body := b, dirty := true, firstRun := true,
+  let (c1, o) := newOwner st.toCore
+  let (c2, k) := newItem c1 (Val.eff e)
+  { st with toCore := c2,
+            effs := st.effs ++ [{ key := k, owner := o, body := b, dirty := true, firstRun := true,
                                   notified := true, woken := true, done := false, sources := [] }] }
 
 /-- `Memo::new(body b)` under the current owner -/
 def newMemo (st : St) (b : Nat) : St :=
   let m := st.memos.length
-  let (st, o) := newOwner st
-  let (st, k) := newItem st (Val.memo m)
-  { st with memos := st.memos ++ [{ key := k, owner := o, body := b, dirty := true, value := none,
+  let (c1, o) := newOwner st.toCore
+  let (c2, k) := newItem c1 (Val.memo m o)
+  { st with toCore := c2,
+            memos := st.memos ++ [{ key := k, owner := o, body := b, dirty := true, value := none,
                                     sources := [] }] }
+
+def newSignal (st : St) (v : Int) : St :=
+  let s := st.sigs.length
+  let (c1, k) := newItem st.toCore (Val.sig s)
+  { st with toCore := c1, sigs := st.sigs ++ [{ key := k, val := v, subs := [] }] }
+
+def newOwnerHandle (st : St) : St :=
+  let (c1, o) := newOwner st.toCore
+  { st with toCore := c1, hOwners := st.hOwners ++ [some o] }
 
 /-- body tokens other than `get` -/
 def execCreate (st : St) : BOp → St
   | .read s => readSig st s
   | .get _ => st
-  | .cleanup tag => regCleanup st tag false
-  | .nested tag => regCleanup st tag true
-  | .item v =>
-    let (st, k) := newItem st (Val.num v)
-    { st with items := st.items ++ [k] }
-  | .sig v =>
-    let s := st.sigs.length
-    let (st, k) := newItem st (Val.sig s)
-    { st with sigs := st.sigs ++ [{ key := k, val := v, subs := [] }] }
-  | .provide ty v => provide st ty v
-  | .use ty => useCtx st ty
-  | .take ty => takeCtx st ty
+  | .cleanup tag => st.lift (regCleanup · tag false)
+  | .nested tag => st.lift (regCleanup · tag true)
+  | .item v => st.lift (newStored · v)
+  | .sig v => newSignal st v
+  | .provide ty v => st.lift (provide · ty v)
+  | .use ty => st.lift (useCtx · ty)
+  | .take ty => st.lift (takeCtx · ty)
   | .effect b => newEffect st b
   | .memo b => newMemo st b
-  | .newOwner =>
-    let (st, o) := newOwner st
-    { st with hOwners := st.hOwners ++ [some o] }
+  | .newOwner => newOwnerHandle st
 
 def bodyOf (st : St) (b : Nat) : List BOp := (st.bodies[b]?).getD []
+
+def pushCur (st : Core) (o : Nat) : Core := { st with cur := o :: st.cur }
+def popCur (st : Core) (n : Nat) : Core := { st with cur := st.cur.drop n }
 
 /-- `MemoInner::update_if_necessary` taking the `Dirty` branch -/
 def runMemo (st : St) (m : Nat) : St :=
@@ -527,13 +545,14 @@ def runMemo (st : St) (m : Nat) : St :=
     let st := clearSources st (Sub.memo m) mr.sources
     let st := { st with memos := st.memos.set m { mr with sources := [] } }
     -- owner.with_cleanup(|| with_observer(fun))
-    let st := cleanupOwner st mr.owner
+    let st := st.lift (cleanupOwner · mr.owner)
     let saved := (st.obs, st.acc, st.memoDepth)
-    let st := { st with cur := mr.owner :: st.cur, obs := some (Sub.memo m), acc := 0,
-                        memoDepth := st.memoDepth + 1, log := st.log ++ [Ev.m m] }
+    let st := st.lift fun c => logEv (pushCur c mr.owner) (Ev.m m)
+    let st := { st with obs := some (Sub.memo m), acc := 0, memoDepth := st.memoDepth + 1 }
     let st := (bodyOf st mr.body).foldl execCreate st
     let v := st.acc
-    let st := { st with cur := st.cur.drop 1, obs := saved.1, acc := saved.2.1, memoDepth := saved.2.2 }
+    let st := st.lift (popCur · 1)
+    let st := { st with obs := saved.1, acc := saved.2.1, memoDepth := saved.2.2 }
     match st.memos[m]? with
     | some mr' => { st with memos := st.memos.set m { mr' with dirty := false, value := some v } }
     | none => st
@@ -545,58 +564,60 @@ def getMemo (st : St) (m : Nat) : St :=
       | some mr => if mr.dirty then runMemo st m else st
       | none => st
     let v := (st.memos[m]?).bind (·.value)
-    { st with acc := st.acc + v.getD 0, log := st.log ++ [Ev.g m v] }
-  else { st with log := st.log ++ [Ev.g m none] }
+    let st := { st with acc := st.acc + v.getD 0 }
+    st.lift (logEv · (Ev.g m v))
+  else st.lift (logEv · (Ev.g m none))
 
 def execBOp (st : St) : BOp → St
   | .get m => if st.memoDepth > 0 then st else getMemo st m
   | op => execCreate st op
+
+/-- the effect's task has seen its channel closed: it returns, dropping its `Owner` -/
+def endTask (st : St) (e : Nat) : St :=
+  match st.effs[e]? with
+  | some er =>
+    let st := { st with effs := st.effs.set e { er with woken := false, done := true } }
+    st.lift (dropOwner · er.owner)
+  | none => st
+
+/-- the body of the task loop: `owner.with_cleanup(|| with_observer(|| fun()))` -/
+def runEffect (st : St) (e : Nat) (er : EffRec) : St :=
+  let st := clearSources st (Sub.eff e) er.sources
+  let er1 : EffRec :=
+    { er with woken := false, notified := false, dirty := false, firstRun := false, sources := [] }
+  let st := { st with effs := st.effs.set e er1 }
+  let st := st.lift (cleanupOwner · er.owner)
+  let saved := (st.obs, st.acc)
+  let st := st.lift fun c => logEv (pushCur c er.owner) (Ev.r e)
+  let st := { st with obs := some (Sub.eff e), acc := 0 }
+  let st := (bodyOf st er.body).foldl execBOp st
+  let st := st.lift (logEv · (Ev.s e st.acc))
+  let st := st.lift (popCur · 1)
+  { st with obs := saved.1, acc := saved.2 }
 
 /-- one poll of effect `e`'s task -/
 def pollEff (st : St) (e : Nat) : St :=
   match st.effs[e]? with
   | none => st
   | some er =>
-    if er.done then st else
-    let st := { st with effs := st.effs.set e { er with woken := false } }
-    if !effLive st e then
-      -- `rx.next()` = None: the task returns, dropping its `Owner`
-      let st := { st with effs := st.effs.set e { er with woken := false, done := true } }
-      dropOwner st er.owner
-    else if !er.notified then st
+    if er.done then st
+    else if !effLive st e then endTask st e   -- `rx.next()` = None
+    else if !er.notified then { st with effs := st.effs.set e { er with woken := false } }
     else
       let paused := match st.owners[er.owner]? with
         | some r => r.paused
         | none => false
-      if paused then
-        { st with effs := st.effs.set e { er with woken := false, notified := false } }
-      else if !(er.dirty || er.firstRun) then
+      if paused || !(er.dirty || er.firstRun) then
         { st with effs := st.effs.set e { er with woken := false, notified := false } }
       else
-        let st := clearSources st (Sub.eff e) er.sources
-        let er1 : EffRec :=
-          { er with woken := false, notified := false, dirty := false, firstRun := false, sources := [] }
-        let st := { st with effs := st.effs.set e er1 }
-        let st := cleanupOwner st er.owner
-        let saved := (st.obs, st.acc)
-        let st := { st with cur := er.owner :: st.cur, obs := some (Sub.eff e), acc := 0,
-                            log := st.log ++ [Ev.r e] }
-        let st := (bodyOf st er.body).foldl execBOp st
-        let st := { st with log := st.log ++ [Ev.s e st.acc] }
-        let st := { st with cur := st.cur.drop 1, obs := saved.1, acc := saved.2 }
+        let st := runEffect st e er
         -- next loop iteration: the channel may have been closed during the run
-        if !effLive st e then
-          match st.effs[e]? with
-          | some er' =>
-            let st := { st with effs := st.effs.set e { er' with woken := false, done := true } }
-            dropOwner st er'.owner
-          | none => st
-        else st
+        if !effLive st e then endTask st e else st
 
 def ready (st : St) : List Nat :=
   (List.range st.effs.length).filter fun e =>
     match st.effs[e]? with
-    | some er => !er.done && er.woken
+    | some er => !er.done && (er.woken || !effLive st e)
     | none => false
 
 def pollNth (st : St) (i : Nat) : St :=
@@ -665,12 +686,12 @@ def handleKey (st : St) : HKind → Nat → Option Key
   | .m, k => (st.memos[k]?).map (·.key)
   | .e, k => (st.effs[k]?).map (·.key)
 
-def dropHandles : List Nat → St → St
-  | [], st => st
-  | h :: hs, st =>
-    match heldOwner st h with
-    | some o => dropHandles hs (dropOwner { st with hOwners := st.hOwners.set h none } o)
-    | none => dropHandles hs st
+def dropHandle (st : St) (h : Nat) : St :=
+  match heldOwner st h with
+  | some o => { st with hOwners := st.hOwners.set h none }.lift (dropOwner · o)
+  | none => st
+
+def pushAll (st : Core) (os : List Nat) : Core := { st with cur := os.reverse ++ st.cur }
 
 /-- `none` = the line is a `noop` (a referenced handle is missing or dropped) -/
 def stepOp (st : St) : Op → Option St
@@ -679,40 +700,40 @@ def stepOp (st : St) : Op → Option St
     match ins.mapM (heldOwner st) with
     | none => none
     | some os =>
-      let st1 := { st with cur := os.reverse ++ st.cur }
+      let st1 := st.lift (pushAll · os)
       let r := match a with
         | .x b => some (execBOp st1 b)
         | .cleanup h =>
           match heldOwner st h with
-          | some o => some (cleanupOwner st1 o)
+          | some o => some (st1.lift (cleanupOwner · o))
           | none => none
-      r.map fun st2 => { st2 with cur := st2.cur.drop os.length }
+      r.map fun st2 => st2.lift (popCur · os.length)
   | .child h =>
     match heldOwner st h with
     | some o =>
-      let (st, c) := childOwner st o
-      some { st with hOwners := st.hOwners ++ [some c] }
+      let (c1, c) := childOwner st.toCore o
+      some { st with toCore := c1, hOwners := st.hOwners ++ [some c] }
     | none => none
   | .drop h =>
     match heldOwner st h with
-    | some o => some (dropOwner { st with hOwners := st.hOwners.set h none } o)
+    | some _ => some (dropHandle st h)
     | none => none
   | .dispose k i =>
     match handleKey st k i with
-    | some key => some (disposeKey st key)
+    | some key => some (st.lift (disposeKey · key))
     | none => none
   | .set s v => if s < st.sigs.length then some (setSig st s v) else none
   | .pause h =>
     match heldOwner st h with
-    | some o => some (setPaused st o true)
+    | some o => some (st.lift (setPaused · o true))
     | none => none
   | .resume h =>
     match heldOwner st h with
-    | some o => some (setPaused st o false)
+    | some o => some (st.lift (setPaused · o false))
     | none => none
   | .poll i => some (pollNth st i)
   | .idle => some (runIdle 10000 st)
-  | .«end» => some (runIdle 10000 (dropHandles (List.range st.hOwners.length) st))
+  | .«end» => some (runIdle 10000 ((List.range st.hOwners.length).foldl dropHandle st))
 
 def runOps (st : St) : List Op → St
   | [] => st
